@@ -10,7 +10,7 @@
 EXTENDS OrbiterProps, Inputs
 CONSTANT MaxDepth
 
-Rcvs == {"U", "M", "DUST", "INVALID", "EMPTY", "OTHER_HRP", "cctp", "F1"}
+Rcvs == {"U", "M", "DUST", "INVALID", "EMPTY", "OTHER_HRP", "cctp", "F1", "ORB_MIXED"}
 Payload1 == [fw |-> FwINT("F2"), acts |-> <<FeeAct(<<Bps(100, "F1")>>)>>]
 NonOrbiter ==
   { Pkt(c, r, dn, b, 9, "NONE") : c \in {0, 1}, r \in Rcvs, dn \in {"RET", "SRCNATIVE", "OTHERCH", "MULTI"}, b \in {"uusdc", "ustake"} }
@@ -25,7 +25,7 @@ AckTimeouts ==
   \cup { TimeoutIn(c, dn, b, 7, who) : c \in {0, 1}, dn \in {"NATIVE", "VOUCHER"}, b \in {"uusdc", "ustake"}, who \in {"U", "INVALID"} }
   \cup { [AckIn("ackErr", 0, "NATIVE", "uusdc", 7, "U") EXCEPT !.mk = "PAYLOAD", !.fw = Payload1.fw, !.acts = Payload1.acts],
          [AckIn("ackErr", 0, "RAWDATA", "uusdc", 7, "U") EXCEPT !.raw = "garbage"], [TimeoutIn(0, "RAWDATA", "uusdc", 7, "U") EXCEPT !.raw = "{}"] }
-StateChangers == { Xfer(0, "uusdc", 1000, FwCCTP(0, "MINT_A", "NONE"), <<FeeAct(<<Bps(100, "F1")>>)>>), Xfer(1, "ustake", 500, FwINT("U"), <<>>),
+StateChangers == { DepositIn("ustake", 3), Xfer(0, "uusdc", 1000, FwCCTP(0, "MINT_A", "NONE"), <<FeeAct(<<Bps(100, "F1")>>)>>), Xfer(1, "ustake", 500, FwINT("U"), <<>>),
                    PauseProtocol("AUTH", "INT"), PauseCC("AUTH", "CCTP", <<Cp0>>), PauseAction("AUTH", "FEE"), UpdateParams("AUTH", 64),
                    DepositIn("uusdc", 5), DepositIn("ustake", 5), EnvIn("ftfPause", ""), EnvIn("ftfUnpause", ""), EnvIn("block", "U") }
 MCAlphabet == NonOrbiter \cup AckTimeouts \cup StateChangers
